@@ -590,16 +590,27 @@ def generate(rng, with_objects=None):
         if 0 in ws:
             feats.add("zero-weight")
         feats.add("Discrete")
+        # Python dict keys: constants must be distinct and two non-constant options could be the very same
+        # object (Scenic returns `x` itself for x+0, x*1, x//1), so allow at most one non-constant option
         opts = []
         seen = set()
         tries = 0
+        nonconst = 0
         while len(opts) < n and tries < 20:
             tries += 1
             o = int_operand(depth - 1)
-            k = ("c", o.v) if isinstance(o, Const) else ("n", o.uid)
-            if k in seen:  # duplicate dict keys collapse in Python: keep keys distinct
-                continue
-            seen.add(k)
+            if isinstance(o, Const):
+                if o.v in seen:
+                    continue
+                seen.add(o.v)
+            else:
+                if nonconst:
+                    o = const(6, 9)
+                    if o.v in seen:
+                        continue
+                    seen.add(o.v)
+                else:
+                    nonconst = 1
             opts.append(o)
         ws = ws[: len(opts)]
         if sum(ws) == 0:
